@@ -401,6 +401,45 @@ def gen_case(rng: random.Random, tier: str, bias: str = ''):
         steps[st_n]['may_raise'] = True
         return True
 
+    def op_readall():
+        """read a whole container back: every nested proxy arrives as a new proxy of the reader"""
+        cands = [(p, h, i) for p, h, i in T.live_handles() if T.kind[i] in ('list', 'dict') and i not in T.inner_of]
+        if not cands:
+            return False
+        p, hc, c = rng.choice(cands)
+        macros = [f'call {p} {c}']
+        keep = []
+        discard = rng.random() < 0.3
+        for e in T.entries(c):
+            if e[0] == 'p':
+                macros.append(f'getitem {p} {c} {e[1]}')
+                if discard:
+                    macros.append(f'delete {p} {e[1]}')
+                else:
+                    keep.append(add_handle(p, e[1]))
+        if T.kind[c] == 'list':
+            cmd = ['call', hc, '__getitem__', [{'$slice': [None, None, None]}], None, keep]
+        else:
+            cmd = ['call', hc, 'copy', [], None, keep]
+        emit('readall', p, cmd, macros)
+        return True
+
+    def op_extend():
+        cands = [(p, h, i) for p, h, i in T.live_handles() if T.kind[i] == 'list' and i not in T.inner_of]
+        if not cands:
+            return False
+        p, hc, c = rng.choice(cands)
+        # distinct proxy objects: pickling one list that holds the *same* proxy object twice memoises
+        # it (one `__reduce__`, one proxy after un-pickling, referenced twice) — one reference, not two
+        mine = [(p, h, i) for pp, h, i in T.live_handles() if pp == p]
+        xs = rng.sample(mine, k=min(len(mine), rng.choice([1, 2, 3])))
+        macros = []
+        for _, hx, i in xs:
+            T.content[c].append(('p', i))
+            macros.append(f'store {p} {c} {i}')
+        emit('extend', p, ['call', hc, 'extend', [[{'$h': hx} for _, hx, _i in xs]]], macros)
+        return True
+
     def op_exit():
         # a client exits only after its own children (the parent joins it)
         cands = [q for q in running() if q != '0' and not any(T.parent.get(c) == q for c in running())]
@@ -423,7 +462,7 @@ def gen_case(rng: random.Random, tier: str, bias: str = ''):
     ops = [(op_create, 5), (op_pickle, 3), (op_unpickle, 4), (op_spawn, 3 if bias != 'nospawn' else 0),
            (op_delete, 4), (op_store, 4), (op_storeplain, 1), (lambda: op_take('pop'), 3),
            (lambda: op_take('del'), 2), (lambda: op_take('get'), 3), (op_clear, 1), (op_managed, 4),
-           (op_exit, 2), (op_call, 1), (op_pass, 3)]
+           (op_exit, 2), (op_call, 1), (op_pass, 3), (op_readall, 2), (op_extend, 1)]
     # every history starts with something to refer to
     op_create()
     n = 1
